@@ -9,6 +9,8 @@ D=/verif/seeded/$NAME
 mkdir -p $D
 cp $WT/_seed/patch.diff $WT/_seed/meta.json $D/ 2>/dev/null
 cp $WT/_seed/RUN.txt $WT/_seed/demo.* $D/ 2>/dev/null
+# helper sources the demonstration compiles (readers, comparers): everything small and textual in _seed/
+find $WT/_seed -maxdepth 1 -type f \( -name '*.cpp' -o -name '*.hpp' -o -name '*.sh' -o -name '*.py' -o -name '*.cfg' \) -size -200k -exec cp {} $D/ \; 2>/dev/null
 rm -f $D/demo
 LOG=$D/confirm.log; : > $LOG
 echo "== worktree reset to HEAD + the recorded patch only (git stash is shared between worktrees: never used here)" | tee -a $LOG
